@@ -98,7 +98,7 @@ impl SubCheck for Sizes {
 		"request-sizes"
 	}
 	fn cases(&self, tier: Tier) -> u32 {
-		tier.pick(20_000, 500_000)
+		tier.pick(100_000, 2_000_000)
 	}
 	fn strategy(&self, _tier: Tier) -> BoxedStrategy<SizeCase> {
 		let lim = proptest::sample::select(LIMITS.to_vec());
